@@ -120,7 +120,7 @@ CHECKS = {
         level="exploration",
         quick=NATIVE, thorough=NATIVE,
         rule="streams = sequences of (dedup|plain, string) writes; exhaustive over all sequences up to the stated length, random beyond; non-trivial = contains at least one repeat of a deduplicated string (a back-reference is written); distinct by write sequence / by (type, bytes) for record subjects",
-        floors={"any": {"back_references_checked": 10000, "no_repeat_streams_identical_to_plain": 1000, "unknown_ids_rejected": 10000, "records_with_names_in_header_ok": 500}},
+        floors={"any": {"back_references_checked": 10000, "no_repeat_streams_identical_to_plain": 1000, "unknown_ids_rejected": 10000, "records_with_names_in_header_ok": 500, "streams:many_ids": 2}},
     ),
     "C10": dict(
         claim="Held on N observed executions: every rooted graph with at most 3 nodes (4 in the thorough tier) and out-degree at most 2, and random graphs up to 200 nodes, is encoded with a harness-owned codec that offers node addresses as identities through the public API; bytes must equal the graph model (new marker + body on first offer, 1-based first-encounter number afterwards, pre-order), the decoded graph must be isomorphic with identical sharing (pointer equality), and streams citing an object number never introduced must fail with InvalidRefId. The Miri lane runs the same on small graphs under an interpreter that makes vtable addresses non-unique.",
@@ -159,7 +159,7 @@ CHECKS = {
         level="exploration",
         quick=NATIVE, thorough=NATIVE + [("fresh", 1.0, {"only": "fresh"})],
         rule="cases: (enum, value) leading-index checks, (base, extension, value) cross reads both ways, spliced indices {n, n+1, 127, 128, 2^14, u32::MAX} and transient indices; non-trivial = all; distinct by (reader type, bytes)",
-        floors={"any": {"old_data_keeps_its_meaning": 2000, "old_data_keeps_its_meaning_sorted": 300, "new_constructor_rejected_by_old_definition": 1000, "unknown_index_rejected": 1000, "transient_index_rejected": 30, "leading_index_checked_for_sorted_constructors": 500}},
+        floors={"any": {"old_data_keeps_its_meaning": 2000, "old_data_keeps_its_meaning_sorted": 300, "new_constructor_rejected_by_old_definition": 1000, "unknown_index_rejected": 1000, "transient_index_rejected": 30, "leading_index_checked_for_sorted_constructors": 500, "two_byte_constructor_index_checked": 10}},
     ),
     "C14": dict(
         claim="Held on N observed executions: for every generated declaration with transient fields (first / middle / last position, in structs and both variant kinds) two values differing only in transient fields encode identically and decode to the declared default (defaults are drawn to differ from the values); every transient constructor refuses to encode with SerializingTransientConstructor naming type and constructor; every version of every generated history that follows a FieldMadeTransient step encodes successfully, including fields made optional or added earlier.",
